@@ -66,6 +66,12 @@ fn add_arg_filters(e: &mut Environment<'static>) {
     e.add_filter("t_value", |v: Value| format!("<{}>", v));
     e.add_filter("t_optstring", |v: Option<String>| format!("<{}>", v.unwrap_or_default()));
     e.add_filter("t_two", |a: String, b: String| format!("<{}{}>", a, b));
+    // templates for the multi-template statements of the `stmt` stream
+    e.add_template("inc", "(inc {{ i1 }}{{ u }})").unwrap();
+    e.add_template("incdef", "(incdef {{ u is defined }}{{ u|default(1) }})").unwrap();
+    e.add_template("mac", "{% macro f(a, b=u) %}<{{ a }}|{{ b }}>{% endmacro %}{% macro g(a) %}<{{ a is defined }}>{% endmacro %}").unwrap();
+    e.add_template("base", "B{% block blk %}[{{ u }}]{% endblock %}{% block other %}o{% endblock %}E").unwrap();
+    e.add_template("base2", "B{% block blk %}[{{ u|default(2) }}]{% endblock %}E").unwrap();
 }
 
 fn mk_envs() -> Envs {
@@ -553,6 +559,36 @@ const BUILTINS: &[B] = &[
     b("function", "dict", &[], &[("x", "i1"), ("y", "s1")]),
     b("function", "debug", &["i1"], &[]),
     b("function", "namespace", &["m1"], &[("x", "i1")]),
+];
+
+/// statement forms with a possibly-undefined operand (oracle: monotonicity only)
+const STMTS: &[&str] = &[
+    "{% include u %}", "{% include u ignore missing %}", "{% include [u, 'inc'] %}", "{% include [u, 'incdef'] %}",
+    "{% include 'inc' %}", "{% include 'incdef' %}", "{% include (1 if b0) %}", "{% include a.b.c ignore missing %}",
+    "{% extends u %}", "{% extends 'base' %}", "{% extends 'base2' %}", "{% extends 'base' %}{% block blk %}<{{ super() }}>{% endblock %}",
+    "{% extends 'base2' %}{% block blk %}<{{ super() }}{{ u }}>{% endblock %}", "{% extends 'base' %}{% block blk %}{{ u|default(1) }}{% endblock %}",
+    "{% extends 'base' if u else 'base2' %}", "{% block b %}{{ u }}{% endblock %}{{ self.b() }}", "{% block b %}{{ u is defined }}{% endblock %}{{ self.b() }}",
+    "{% import u as m %}", "{% import 'mac' as m %}{{ m.f(1) }}", "{% import 'mac' as m %}{{ m.f(u) }}", "{% import 'mac' as m %}{{ m.f(1, 2) }}",
+    "{% import 'mac' as m %}{{ m.g(u) }}", "{% import 'mac' as m %}{{ m.g() }}", "{% import 'mac' as m %}{{ m.nope }}", "{% import 'mac' as m %}{{ m.nope.x }}",
+    "{% from 'mac' import f %}{{ f(u) }}", "{% from 'mac' import f %}{{ f(1, b=u) }}", "{% from 'mac' import f %}{{ f(a.b.c, 2) }}", "{% from u import f %}",
+    "{% from 'mac' import g %}{{ g((1 if b0)) }}", "{% from 'mac' import f %}{% call f(u, 1) %}x{% endcall %}",
+    "{% macro m(a, b=u) %}[{{ a }}{{ b }}]{% endmacro %}{{ m() }}", "{% macro m(a, b=u) %}[{{ a is defined }}{{ b|default(3) }}]{% endmacro %}{{ m() }}",
+    "{% macro m(a) %}[{{ a }}]{% endmacro %}{{ m(u) }}{{ m(a=u) }}", "{% macro m(a) %}[{% if a %}1{% endif %}]{% endmacro %}{{ m() }}",
+    "{% macro m(a) %}[{{ a.x }}]{% endmacro %}{{ m() }}", "{% macro m(a) %}[{{ caller() }}]{% endmacro %}{% call m() %}{{ u }}{% endcall %}",
+    "{% macro m(a) %}[{{ caller(u) }}]{% endmacro %}{% call(x) m() %}{{ x is defined }}{% endcall %}", "{% macro m() %}{{ varargs }}{{ kwargs }}{% endmacro %}{{ m(u, k=u) }}",
+    "{% macro m(a) %}{{ a }}{% endmacro %}{{ m(*u) }}", "{% macro m(a) %}{{ a }}{% endmacro %}{{ m(**u) }}", "{% macro m(a=1) %}{{ a }}{% endmacro %}{{ m(**{'a': u}) }}",
+    "{% autoescape u %}{{ html }}{% endautoescape %}", "{% autoescape (1 if b0) %}{{ html }}{% endautoescape %}", "{% autoescape 'html' %}{{ u }}{{ html }}{% endautoescape %}",
+    "{% for x, y in u %}{{ x }}{% endfor %}", "{% for x, y in [u] %}{{ x }}{% endfor %}", "{% for x, y in [[1, u]] %}{{ x }}{{ y is defined }}{% endfor %}", "{% for x, y in [[1, u]] %}{{ y }}{% endfor %}",
+    "{% for x in lm recursive %}{{ x.v }}{{ loop(u) }}{% endfor %}", "{% for x in l1 recursive %}{{ x }}{% if x == 1 %}{{ loop(a.b) }}{% endif %}{% endfor %}", "{% for x in u recursive %}{{ loop(x) }}{% endfor %}",
+    "{% for x in l1 %}{{ loop.cycle(u, 1) }}{% endfor %}", "{% for x in l1 %}{{ loop.changed(u) }}{% endfor %}", "{% for x in l1 %}{{ loop.previtem }}|{{ loop.nextitem }}|{% endfor %}",
+    "{% for x in l1 %}{{ loop.previtem is defined }}{% endfor %}", "{% for x in l1 %}{% if loop.previtem %}p{% endif %}{% endfor %}", "{% for x in l1 %}{{ loop.nope }}{% endfor %}", "{% for x in l1 %}{{ loop.nope.x }}{% endfor %}",
+    "{% for x in l1 %}{% if x == u %}{% break %}{% endif %}{{ x }}{% endfor %}", "{% for x in l1 %}{% if u %}{% continue %}{% endif %}{{ x }}{% endfor %}",
+    "{% set ns = namespace(x=u) %}{{ ns.x }}", "{% set ns = namespace() %}{% set ns.x = u %}{{ ns.x is defined }}", "{% set ns = namespace() %}{{ ns.y }}", "{% set ns = namespace() %}{{ ns.y.z }}", "{% set u.x = 1 %}", "{% set ns = namespace(u) %}",
+    "{% set x, y = u %}", "{% set x, y = [u, 1] %}{{ x is defined }}{{ y }}", "{% set x = u %}{% set y = x %}{{ y|default(1) }}", "{% set x %}{{ u }}{% endset %}{{ x }}", "{% set x | upper %}a{{ u|default('b') }}{% endset %}{{ x }}",
+    "{% with x = u, y = x %}{{ y is defined }}{% endwith %}", "{% with x = u.a %}1{% endwith %}", "{% filter upper %}{{ u }}a{% endfilter %}", "{% filter default('d') %}{% endfilter %}", "{% filter replace('a', u) %}aba{% endfilter %}",
+    "{% if u is defined and u %}1{% else %}0{% endif %}", "{% if u is undefined or u.x %}1{% endif %}", "{% if u is defined and u.x %}1{% else %}0{% endif %}", "{{ u.x if u is defined else 'd' }}", "{{ (u|default(m1)).k }}", "{{ (u or m1).k }}",
+    "{{ range(u) }}", "{{ range(1, u) }}", "{{ range(1, 5, u) }}", "{{ dict(a=u) }}", "{{ dict(u) }}", "{{ dict(**u) }}", "{{ dict(m1, **u) }}", "{{ dict(**a.b) }}", "{{ namespace(**u) }}", "{{ debug(u) is string }}", "{{ lipsum }}", "{{ u() }}", "{{ u.f() }}", "{{ u.f(1) }}", "{{ m1.f() }}", "{{ s1.nope() }}", "{{ a.b() }}", "{{ l1.u() }}",
+    "{{ [1, 2] + u }}", "{{ u + u }}", "{{ u ** 2 }}", "{{ u // 2 }}", "{{ 7 % u }}", "{{ u / 1 }}", "{{ -u }}", "{{ +u }}", "{{ u * 'a' }}", "{{ (u, 1) }}", "{{ (u,) }}", "{{ [u] }}", "{{ {'k': u} }}", "{{ {u: 1} }}", "{{ [u, [u]]|string }}", "{{ {'a': u}|tojson }}", "{{ [u]|tojson }}", "{{ u|tojson }}", "{{ {'a': u}|urlencode }}", "{{ {'a': u}|dictsort }}", "{{ [u, 1]|sort }}", "{{ [u, 1]|unique|list }}", "{{ [u, 1]|min }}", "{{ [u, 1]|join('-') }}", "{{ [u, u]|sum }}", "{{ [u]|first }}", "{{ [u]|last.x }}", "{{ ([u]|first).x }}", "{{ [u][0].x }}", "{{ {'a': u}.a.x }}", "{{ {'a': u}['a']['x'] }}",
 ];
 
 /// tests whose names are operator symbols are only reachable through select/reject
@@ -1068,6 +1104,10 @@ fn main() {
             gen_sweep(&tier, &mut |label, src| sweep.push((label, src)));
             for (label, src) in &sweep {
                 emit(&mut w, &envs, "sweep", id, label, src, &big, false);
+                id += 1;
+            }
+            for src in STMTS {
+                emit(&mut w, &envs, "stmt", id, "stmt", src, &big, false);
                 id += 1;
             }
             let n_model = if tier == "thorough" { 100000 } else { 2000 };
